@@ -77,6 +77,27 @@ CLAIMS = {
         note=NOTE_BASE,
         technique="static analysis: branch-discipline (dominance) rules over MIR closures",
     ),
+    "C11": dict(
+        category="proof",
+        text="Static proof of the histogram's accounting structure (relative to C13's lookup and ndarray indexing): counts written only by "
+             "new/add_observation (field ownership over all MIR bodies), exactly one `+= 1` on the found branch with the index returned by "
+             "self.grid.index_of(observation), nothing written or called on the reject path, counts = zeros(grid.shape()) of the stored "
+             "grid, matrix form inserts each row of axis 0 once and ignores rejects, coordinate j paired with projection j after an arity "
+             "assert. Order independence follows from commuting increments.",
+        design_ref="DESIGN.md §4 C11",
+        note=NOTE_BASE,
+        technique="static analysis: field-ownership, exactly-once dataflow and dominance rules over MIR",
+    ),
+    "C13": dict(
+        category="other",
+        text="Static check that (a) every Edges value is sorted+deduplicated by construction and immutable afterwards (constructor "
+             "dominance, private fields, no &mut self methods, single construction sites), (b) all accessors of Edges/Bins/Grid go through "
+             "the one binary-search primitive, Bins::len arms are 0→0, n→n−1, and (c) the decision tree of Edges::indices_of extracted "
+             "from MIR equals the left-closed/right-open table on every (variant, index, n≤8) case. Trusts std's binary_search contract.",
+        design_ref="DESIGN.md §4 C13",
+        note=NOTE_BASE,
+        technique="static analysis: constructor-dominance/ownership rules + decision-tree extraction compared with a specification table",
+    ),
 }
 
 PENDING = "not yet claimed in this revision: the static rule set for it is still being implemented (see DESIGN.md §8); no check is registered rather than a weak one"
